@@ -1003,6 +1003,8 @@ fn c02_rand_run(case: &mut Case, rng: &mut Rng) {
     let mut partitioned = false;
     let mut c_open = true;
     let mut s_open = true;
+    let mut held_until: Option<u64> = None;
+    let mut repair_first = false;
     for r in 0..rounds {
         for _ in 0..rng.below(3) {
             if c_open {
@@ -1040,13 +1042,31 @@ fn c02_rand_run(case: &mut Case, rng: &mut Rng) {
             let op = if rng.chance(1, 5) { "tcp_peek" } else { "tcp_read" };
             case.ctl(&format!("q h{c} {op} s{cs} {}", *rng.pick(&[0u64, 1, 2, 3, 7, 64])));
         }
+        if let Some(until) = held_until {
+            if r >= until {
+                // end of the hold: whatever was written meanwhile is parked on the link. A `repair` in between makes
+                // the link healthy without releasing anything — `release` must still let everything go
+                if repair_first {
+                    case.ctl("repair h0 h1");
+                    case.ctl("step");
+                }
+                case.ctl("release h0 h1");
+                held_until = None;
+            }
+        }
         if disturb && r == rounds / 2 {
-            match rng.below(3) {
+            match rng.below(6) {
                 0 => {
                     case.ctl("hold h0 h1");
                     case.ctl("step");
                     case.ctl("step");
                     case.ctl("release h0 h1");
+                }
+                3 | 4 | 5 => {
+                    // a hold that spans a few rounds of writes and reads
+                    case.ctl("hold h0 h1");
+                    held_until = Some(r + 1 + rng.below(3));
+                    repair_first = rng.chance(1, 2);
                 }
                 1 => {
                     case.ctl("partition h0 h1");
@@ -1072,6 +1092,12 @@ fn c02_rand_run(case: &mut Case, rng: &mut Rng) {
             s_open = false;
         }
         case.ctl("step");
+    }
+    if held_until.is_some() {
+        if repair_first {
+            case.ctl("repair h0 h1");
+        }
+        case.ctl("release h0 h1");
     }
     if partitioned {
         case.ctl("mark partitioned");
